@@ -1,10 +1,14 @@
 package main
 
 import (
+	"encoding/json"
 	"flag"
 	"fmt"
+	"go/types"
 	"math/big"
 	"os"
+	"os/exec"
+	"path/filepath"
 	"sort"
 	"strconv"
 	"strings"
@@ -203,6 +207,10 @@ func main() {
 		cmdCheck(os.Args[2:])
 	case "list":
 		cmdList(os.Args[2:])
+	case "sweep":
+		cmdSweep(os.Args[2:])
+	case "replay":
+		cmdReplay(os.Args[2:])
 	default:
 		fmt.Fprintln(os.Stderr, "unknown command")
 		os.Exit(2)
@@ -288,5 +296,151 @@ func cmdVerify(args []string) {
 				fmt.Printf("   note: %s\n", n)
 			}
 		}
+	}
+}
+
+// cmdSweep: zero-annotation safety sweep. Every function of the repository without a contract
+// is executed with an empty contract (arbitrary well-typed arguments, non-nil pointer receiver)
+// and its safety obligations (nil, index, slice, nilmap, assert, panic, division, callee
+// preconditions) are sent to the solvers with a short timeout. One line per function. Triage tool.
+func cmdSweep(args []string) {
+	fs := flag.NewFlagSet("sweep", flag.ExitOnError)
+	repo := fs.String("repo", "/repo", "")
+	spec := fs.String("spec", "/verif/spec", "")
+	timeout := fs.Int("timeout", 2, "")
+	match := fs.String("match", "", "only functions whose name contains this")
+	all := fs.Bool("all", false, "include functions that already have a contract")
+	work := fs.String("work", "/verif/work/sweep", "")
+	shard := fs.Int("shard", 0, "")
+	shards := fs.Int("shards", 1, "")
+	fs.Parse(args)
+	w, err := loadWorld(*repo, *spec)
+	if err != nil {
+		fmt.Fprintln(os.Stderr, err)
+		os.Exit(2)
+	}
+	*work = fmt.Sprintf("%s%d", *work, *shard)
+	os.RemoveAll(*work)
+	seen := map[*ssa.Function]bool{}
+	var ks []string
+	for k, f := range w.funcs {
+		if seen[f] {
+			continue
+		}
+		seen[f] = true
+		ks = append(ks, k)
+	}
+	sort.Strings(ks)
+	lines := make([]string, len(ks))
+	var wg sync.WaitGroup
+	sem := make(chan struct{}, 1)
+	for i, k := range ks {
+		f := w.funcs[k]
+		if i%*shards != *shard {
+			continue
+		}
+		if f.Blocks == nil || (*match != "" && !strings.Contains(k, *match)) {
+			continue
+		}
+		if strings.Contains(k, "$") || strings.HasSuffix(k, ".init") {
+			continue
+		}
+		wg.Add(1)
+		go func(i int, k string, f *ssa.Function) {
+			defer wg.Done()
+			sem <- struct{}{}
+			defer func() { <-sem }()
+			defer func() {
+				if r := recover(); r != nil {
+					lines[i] = fmt.Sprintf("%-60s ENGINE-PANIC %v", k, trunc(fmt.Sprint(r), 120))
+				}
+			}()
+			x := w.newExec()
+			c := x.contractFor(f)
+			if c != nil && !*all {
+				return
+			}
+			if c == nil {
+				c = &Contract{Kind: "func", Name: k}
+				if recv := f.Signature.Recv(); recv != nil && recv.Name() != "" && recv.Name() != "_" {
+					if _, isPtr := recv.Type().(*types.Pointer); isPtr {
+						if cl, err := parseClause(recv.Name() + " != nil"); err == nil {
+							c.Requires = append(c.Requires, cl)
+						}
+					}
+				}
+			}
+			res := x.VerifyFunction(f, c)
+			if res.Err != nil {
+				lines[i] = fmt.Sprintf("%-60s ERROR %v", k, trunc(res.Err.Error(), 100))
+				return
+			}
+			no := map[string]bool{}
+			for _, o := range res.Obligations {
+				no[o.Name] = true
+			}
+			rs := discharge(x, res, *work, *timeout, no)
+			bad := []string{}
+			for _, r := range rs {
+				if r.Ans.Status != "unsat" {
+					bad = append(bad, strings.TrimPrefix(r.O.Name, funcDisplayName(f)))
+				}
+			}
+			um := ""
+			if len(res.Unmodelled) > 0 {
+				um = fmt.Sprintf(" unmodelled=%d", len(res.Unmodelled))
+			}
+			lines[i] = fmt.Sprintf("%-60s obl=%d open=%d%s %s", k, len(rs), len(bad), um, trunc(strings.Join(bad, " | "), 300))
+		}(i, k, f)
+	}
+	wg.Wait()
+	for _, l := range lines {
+		if l != "" {
+			fmt.Println(l)
+		}
+	}
+}
+
+// cmdReplay re-runs the Go test stored in a replay file against the current /repo tree.
+func cmdReplay(args []string) {
+	fs := flag.NewFlagSet("replay", flag.ExitOnError)
+	file := fs.String("file", "", "replay file")
+	repo := fs.String("repo", "/repo", "")
+	fs.Parse(args)
+	data, err := os.ReadFile(*file)
+	if err != nil {
+		fmt.Fprintln(os.Stderr, err)
+		os.Exit(2)
+	}
+	var m map[string]interface{}
+	if err := json.Unmarshal(data, &m); err != nil {
+		fmt.Fprintln(os.Stderr, err)
+		os.Exit(2)
+	}
+	fmt.Printf("property:   %v\nobligation: %v\nreason:     %v\nsolver:     %v (%v)\n", m["property"], m["obligation"], m["reason"], m["solver"], m["solver_status"])
+	src, _ := m["go_test"].(string)
+	if src == "" {
+		fmt.Println("no executable counterexample in this replay file (the solver produced no model, or the inputs are outside the replayable types); the failed obligation and the solver output are above / in the file")
+		os.Exit(0)
+	}
+	pos, _ := m["position"].(string)
+	pkgDir := *repo
+	if i := strings.Index(pos, ":"); i > 0 {
+		pkgDir = filepath.Dir(pos[:i])
+	}
+	dir, _ := os.MkdirTemp("", "gvc-replay-")
+	defer os.RemoveAll(dir)
+	tf := filepath.Join(dir, "zz_gvc_replay_test.go")
+	os.WriteFile(tf, []byte(src), 0o644)
+	ov, _ := json.Marshal(map[string]map[string]string{"Replace": {filepath.Join(pkgDir, "zz_gvc_replay_test.go"): tf}})
+	of := filepath.Join(dir, "overlay.json")
+	os.WriteFile(of, ov, 0o644)
+	cmd := exec.Command("go", "test", "-overlay", of, "-vet=off", "-count=1", "-timeout", "60s", "-run", "^TestGvcReplay$", "-v", ".")
+	cmd.Dir = pkgDir
+	cmd.Env = append(os.Environ(), "GOFLAGS=-mod=readonly", "GOPROXY=off", "GOSUMDB=off", "GOTOOLCHAIN=local")
+	out, _ := cmd.CombinedOutput()
+	fmt.Printf("inputs:     %v\n%s", m["inputs"], out)
+	if strings.Contains(string(out), "GVC-REPLAY-PANIC") {
+		os.Exit(1)
 	}
 }
